@@ -44,7 +44,7 @@ from modelx.core.space import (
     SpaceView,
     RefDict
 )
-from modelx.core.formula import NULL_FORMULA
+from modelx.core.formula import NULL_FORMULA, Formula
 from modelx.core.util import is_valid_name, AutoNamer
 from modelx.core.chainmap import CustomChainMap
 
@@ -1484,6 +1484,9 @@ class SpaceManager(SharedSpaceOperations):
             define = False  # Do not define derived cells
 
     def set_cells_formula(self, cells, func):
+        if not isinstance(func, Formula):
+            # Raise errors before clearing the values
+            func = Formula(func, name=cells.name)
         self.set_cells_property(cells, UserCellsImpl.PROP_FORMULA, func, True)
 
     def set_cache(self, cells, enable_cache):
